@@ -41,7 +41,15 @@ class DummyManager:
         return None
 
 
-Dummy = DummyManager  # (the class name contains an "a" on purpose: see C20's is_async derivation)
+class DerivedDummyManager(DummyManager):
+    """Inherits the whole protocol (cf. subclasses of contextlib.ExitStack, mixins providing __exit__)."""
+
+
+def Dummy(i: int) -> DummyManager:
+    return DerivedDummyManager(i) if i % 2 else DummyManager(i)
+
+
+_unused = DummyManager  # (the class name contains an "a" on purpose: see C20's is_async derivation)
 
 
 class FakeFrame:
